@@ -1,6 +1,7 @@
 #!/bin/bash
 # usage: tools/confirm_seed.sh <Cxx> <A|B>   — confirms a seeded change in a scratch worktree and files it under /verif/seeded
 ID=$1; AB=$2
+export OMP_NUM_THREADS=1 OPENBLAS_NUM_THREADS=1 MKL_NUM_THREADS=1   # 16 cores: BLAS threads x xdist workers oversubscribe 10x otherwise
 SRC=${SEEDROOT:-/tmp/seed/out}/$ID/$AB
 DST=/verif/seeded/${PREFIX:-}$ID-$AB
 WT=/tmp/confirm-${PREFIX:-}$ID-$AB
